@@ -320,6 +320,9 @@ fn o4_2_merge_start() {
     std::mem::forget(b);
 }
 
+// NOTE (tried, out of reach): CellText::is_contacting on two one-character texts (nested `any`
+// over the cells() ranges with symbolic widths) ran out of 30 GB.
+
 //@ harness: o4_3_anchor_in_cell props=C04,C12 tier=quick obl=O4.3 timeout=600 mem=8
 //@ desc: Text::from(CellText) anchors the text strictly inside its start cell (cell coords 0..100000), content unchanged; absolute_position shifts the start cell only
 //@ encodes: From<CellText> for Text, Cell::q, CellText::absolute_position
